@@ -6,16 +6,32 @@
    What is proved here: for every well-formed binary the traversal neither panics nor runs out of the driver's fuel
    (C20_total); its non-blank lines are exactly header, then for each instruction of the file in address order its label
    definition (iff it is an in-file branch target) immediately followed by its text line (C20_labels, C20_label_set,
-   C20_lines: every instruction is visited exactly once).  The re-assembly clause is carried in two parts:
-   C20_roundtrip_stmt (each line's statement is converted by the assembler's operand converters to the decoded
-   instruction, whose canonical encoding is the original bytes unless the original halfword is the T1 ADDS/SUBS
-   Rd,Rd,#imm3 alias), and — not a theorem — the steps text -> tokens -> argument trees, label binding and the
-   sequential layout by Context, which are exercised on the real tridas and trias executables by the correspondence
-   stream (every generated binary is disassembled, re-assembled and compared byte for byte).
+   C20_lines: every instruction is visited exactly once).
+   The re-assembly clause is proved END TO END on the models (C20_roundtrip): the exact bytes the tridas model prints, given
+   to the assembler pipeline model (Asm/CtxModel.pipeline = tokenizer, parser, Context with its deferred-statement tasks,
+   close, finalize; any file system, any path), are assembled without any diagnostic (`Done Success []`) to exactly ONE
+   region at 0x20000000 whose bytes are the canonical encoding of every instruction of the binary (canonical_image, same
+   length as the binary) - the binary itself when no instruction starts with the T1 ADDS/SUBS Rd,Rd,#imm3 alias halfword
+   (C20_roundtrip_identity; the alias is the known finding F24: C20_alias_refuted).  No success hypothesis is left.
+   Its parts, each a theorem of its own:
+     C20_listing_parses  characters -> statements: the listing text (header `.addr 0x20000000;` in hexadecimal, line feeds,
+                         tabs, blank lines as separators) is tokenized and parsed to exactly the statement list spec_stmts:
+                         the .addr directive, then per instruction `l_T:` iff it is a branch target and the instruction statement
+                         (Bin/TridasAtoms.v, TridasText.v: every decodable instruction kind except ADR / literal LDR is printed
+                         with single spaces after the mnemonic, after commas and around `+`, by kernel sweeps; C09 text level);
+     C20_listing_layout  statements -> reference image: the C05 oracle (Asm/LayoutSpec.layout_spec) is defined on spec_stmts,
+                         places instruction k at the address it came from with its canonical bytes, binds every label `l_T` to T,
+                         yields one region; the program is in C05's class and collision free (Bin/TridasLayout.v);
+     C20_roundtrip_stmt  each statement is converted by the assembler's operand converters to the decoded instruction (C19, C03);
+   composed with C05_layout_wf_partial (a well-formed program of the class is assembled without diagnostics to the reference
+   image).  The real tridas and trias executables are tied to the models by the correspondence stream (every generated binary
+   is disassembled, re-assembled and compared byte for byte).
    Known finding F24: C20_alias_refuted. *)
 From Coq Require Import ZArith NArith List.
-From Trion Require Import Arm.Instr Arm.DecodeModel Arm.EncodeModel Arm.CodecCheck Arm.DecProofs
-  Arm.DisplayArgs Arm.AsmStmtModel Arm.AsmStmtProofs Bin.ListingTypes Bin.TridasModel Bin.ListingSpec Bin.TridasProofs.
+From Trion Require Import Text.Types Arm.Instr Arm.DecodeModel Arm.EncodeModel Arm.CodecCheck Arm.DecProofs
+  Arm.DisplayArgs Arm.AsmStmtModel Arm.AsmStmtProofs Bin.ListingTypes Bin.TridasModel Bin.ListingSpec Bin.TridasProofs
+  Asm.LayoutSpec Asm.LayoutFinal Bin.TridasText Bin.TridasLayout Bin.TridasRoundtrip.
+From Trion Require Text.ParseModel Asm.CtxModel Asm.LayoutWf Arm.DisplayModel.
 Import ListNotations.
 Open Scope N_scope.
 
@@ -45,12 +61,7 @@ Proof. exact tridas_instr_lines. Qed.
    converters back to the same instruction — labels bound to the addresses they name (ev_display) — and the canonical
    encoding of that instruction is the n original bytes at offset o, unless the original halfword is the T1 ADDS/SUBS
    Rd,Rd,#imm3 pattern (known finding F24).
-   NOT proved, carried by the correspondence on the real executables (every generated binary is disassembled by tridas,
-   assembled by trias and the UF2 image compared byte for byte):
-     C20_roundtrip : wf_binary b -> (no instruction of b starts with an alias halfword) ->
-                     trias_pipeline (stdout of tridas b) = Success im /\ forall k < |b|, im (0x20000000 + k) = b[k]
-   i.e. the steps text -> tokens -> argument trees (tokenizer/parser, C09-C11), the binding of the `l_XXXXXXXX:` label lines
-   by Context, and the sequential layout of the statements from `.addr 0x20000000;` (C05). *)
+   The composition with the text level, label binding and layout is C20_roundtrip below. *)
 Theorem C20_roundtrip_stmt : forall b l, bytes_ok b -> fits b -> instructions b = Some l -> wf_items l = true ->
   forall o i n, In (o, i, n) l ->
   exists hws, enc i = EncOk hws /\ 2 * N.of_nat (length hws) = n /\
@@ -83,4 +94,64 @@ Theorem C20_examples :
     Some [LHeader; LInstr (B Always 0) 0x20000000; LBlank; LLabel 0x20000004; LInstr (Bx LR) 0x20000004] /\
   (* an unreachable tail is outside the property; an undecodable reachable halfword is a panic *)
   wf_binary [0x70; 0x47; 0x00; 0xBF] = false /\ tridas [0x00; 0xE8; 0x00; 0x00] = Panic.
+Proof. vm_compute. repeat split. Qed.
+
+(* ---------------------------------------------------------------------------------------------- *)
+(* END TO END.  Characters -> statements: the bytes the tridas model prints for a well-formed binary are read by the
+   tokenizer and parser models (CtxModel.parse_source) as exactly the statements spec_stmts l:
+     .addr 0x20000000;   then for each instruction (o, i, _) of the binary in address order
+     l_<0x20000000+o>:   iff o is the target of a direct branch of the file
+     <mnemonic i> <display_args i (0x20000000+o)>;                                                   *)
+Theorem C20_listing_parses : forall b, bytes_ok b -> fits b -> wf_binary b = true ->
+  exists text l els, tridas b = Listing text /\ instructions b = Some l /\
+    CtxModel.parse_source text = CtxModel.Parsed (map Text.ParseModel.IOk els) None /\ map e_val els = spec_stmts l.
+Proof. exact tridas_listing_parses. Qed.
+
+(* Statements -> reference image (the C05 oracle): layout_spec is defined on the listing's statements; statement k is placed
+   at 0x20000000 + (offset of instruction k) with the canonical encoding of that instruction; every label a branch mentions is
+   bound to the address it names; the image is one region; and the program satisfies the hypotheses of C05_layout_wf_partial *)
+Theorem C20_listing_layout : forall b l fs, bytes_ok b -> fits b -> instructions b = Some l -> wf_items l = true ->
+  layout_spec fs (spec_stmts l) = Some (placed_of l, final_env l) /\
+  map (fun p => (fst (fst p), snd (fst p))) (placed_of l) = map (fun e => (base + item_off e, item_bytes e)) l /\
+  image_of (placed_of l) = [(base, base + N.of_nat (length b) - 1, canonical_image l)] /\
+  (forall o i n t, In (o, i, n) l -> direct_target o i = Some t ->
+     env_get (final_env l) (DisplayModel.label (base + Z.to_N t)) = Some (Z.of_N (base + Z.to_N t))) /\
+  (forall els, map e_val els = spec_stmts l -> C05_class fs (final_env l) els) /\
+  LayoutWf.no_collision fs (spec_stmts l).
+Proof. exact tridas_listing_layout. Qed.
+
+(* The property's clause: the listing is a complete source text that the assembler accepts (no diagnostic at all), and
+   assembling it yields exactly one region at 0x20000000 holding the canonical encoding of every instruction - as many bytes
+   as the binary has, and the binary itself unless an instruction starts with a T1 ADDS/SUBS Rd,Rd,#imm3 alias halfword.
+   `fs` (no file is opened) and `path` are arbitrary. *)
+Theorem C20_roundtrip : forall b fs path, bytes_ok b -> fits b -> wf_binary b = true ->
+  exists text l, tridas b = Listing text /\ instructions b = Some l /\
+    CtxModel.pipeline fs path text = CtxModel.Done CtxModel.Success [] [(base, base + N.of_nat (length b) - 1, canonical_image l)] /\
+    N.of_nat (length (canonical_image l)) = N.of_nat (length b) /\
+    ((forall o i n, In (o, i, n) l -> alias_addsub_imm3 (first_halfword (skipn (N.to_nat o) b)) = false) -> canonical_image l = b).
+Proof. exact tridas_roundtrip. Qed.
+
+(* ... every input byte reproduced at base address 0x20000000, for binaries outside the known finding's class *)
+Theorem C20_roundtrip_identity : forall b fs path l, bytes_ok b -> fits b -> wf_binary b = true -> instructions b = Some l ->
+  (forall o i n, In (o, i, n) l -> alias_addsub_imm3 (first_halfword (skipn (N.to_nat o) b)) = false) ->
+  exists text, tridas b = Listing text /\
+    CtxModel.pipeline fs path text = CtxModel.Done CtxModel.Success [] [(0x20000000, 0x20000000 + N.of_nat (length b) - 1, b)].
+Proof. exact tridas_roundtrip_identity. Qed.
+
+(* non-vacuity: BEQ +0 ; NOP ; BX LR (forward label, deferred branch) and BL -4 ; BX LR (32-bit instruction whose target is
+   its own address) run through both models by computation *)
+Theorem C20_roundtrip_examples :
+  (match tridas [0x00; 0xD0; 0x00; 0xBF; 0x70; 0x47] with
+   | Listing text => CtxModel.pipeline (fun _ => None) [] text
+   | _ => CtxModel.POutOfFuel end)
+  = CtxModel.Done CtxModel.Success [] [(0x20000000, 0x20000005, [0x00; 0xD0; 0x00; 0xBF; 0x70; 0x47])] /\
+  (match tridas [0xFF; 0xF7; 0xFE; 0xFF; 0x70; 0x47] with
+   | Listing text => CtxModel.pipeline (fun _ => None) [] text
+   | _ => CtxModel.POutOfFuel end)
+  = CtxModel.Done CtxModel.Success [] [(0x20000000, 0x20000005, [0xFF; 0xF7; 0xFE; 0xFF; 0x70; 0x47])] /\
+  (* the known finding: 24 1c (ADDS R4,R4,#0 in its T1 form) comes back as 00 34 (T2) *)
+  (match tridas [0x24; 0x1C; 0x70; 0x47] with
+   | Listing text => CtxModel.pipeline (fun _ => None) [] text
+   | _ => CtxModel.POutOfFuel end)
+  = CtxModel.Done CtxModel.Success [] [(0x20000000, 0x20000003, [0x00; 0x34; 0x70; 0x47])].
 Proof. vm_compute. repeat split. Qed.
